@@ -55,6 +55,8 @@ def to_arr(theta, nan, dtype):
     a = np.array([np.nan if v == nan else v for v in theta], dtype=float)
     if dtype == "int" and nan not in theta:
         return np.array(theta, dtype=int)
+    if dtype == "uint" and nan not in theta and min(theta) >= 0:
+        return np.array(theta, dtype=np.uint32)      # e.g. a count metric returned as an unsigned integer
     return a
 
 
@@ -66,6 +68,9 @@ def event(theta, est, method, alphas, nan, cid, ids, dtype, seed):
          "out": {}, "outq": {}, "v_nan": {}, "v_perm": {}, "v_aff": {}, "v_stack": {}, "v_stack2": {}, "v_small": {}, "aff": [2, 1]}
     try:
         th = to_arr(theta, nan, dtype)
+        est_main = est
+        if th.dtype == np.uint32 and est >= 0:
+            est_main = np.uint32(est)                 # replicates and estimate share the unsigned dtype
         thf = th.astype(float)
         th_nan = np.concatenate([thf[:1], [np.nan], thf[1:], [np.nan, np.nan]])
         perm = rnd.permutation(len(th))
@@ -84,7 +89,7 @@ def event(theta, est, method, alphas, nan, cid, ids, dtype, seed):
         ok = True
         for a in alphas:
             al = a / 1000.0
-            r = np.asarray(bootstrap_ci(th, est, al, method=method))
+            r = np.asarray(bootstrap_ci(th, est_main, al, method=method))
             ok = ok and r.shape == (2,)
             e["out"][str(a)] = [fx6(r[0]), fx6(r[1])]
             if method == "quantile":
@@ -156,7 +161,7 @@ def run(ctx: core.Ctx):
         for j, method in enumerate(METHODS):
             es = ests if ctx.tier == "thorough" else [ests[(cid + j + ctx.seed) % len(ests)]]
             for est in es:
-                dtype = "int" if (cid + j) % 2 == 0 else "float"
+                dtype = ["int", "float", "uint"][(cid + j) % 3]
                 evs.append(event(th, est, method, alphas, nan, cid, ids, dtype, ctx.seed))
         fin = [v for v in th if v != nan]
         if len(set(fin)) > 1:
